@@ -73,6 +73,68 @@ pub fn fnv1a(bytes: &[u8]) -> u64 {
     h
 }
 
+// ---------------------------------------------------------------------------
+// breadcrumbs: attribute a hard crash (SIGSEGV, sanitizer abort) to a case
+// ---------------------------------------------------------------------------
+
+struct Crumbs {
+    path: Option<std::path::PathBuf>,
+    counter: u64,
+    resume_after: u64,
+    skip: Vec<u64>,
+}
+
+thread_local! {
+    static CRUMBS: RefCell<Crumbs> = const { RefCell::new(Crumbs { path: None, counter: 0, resume_after: 0, skip: Vec::new() }) };
+}
+
+/// Configure the breadcrumb file. Cases announced with `crumb` and numbered <= `resume_after` are
+/// skipped; cases whose number is in `skip` are skipped whichever way they are announced.
+pub fn crumb_setup(path: Option<std::path::PathBuf>, resume_after: u64, skip: Vec<u64>) {
+    CRUMBS.with(|c| {
+        let mut c = c.borrow_mut();
+        c.path = path;
+        c.counter = 0;
+        c.resume_after = resume_after;
+        c.skip = skip;
+    });
+}
+
+fn crumb_impl(bfs: bool, f: impl FnOnce() -> String) -> bool {
+    CRUMBS.with(|c| {
+        let mut c = c.borrow_mut();
+        if c.path.is_none() {
+            return true;
+        }
+        c.counter += 1;
+        if (!bfs && c.counter <= c.resume_after) || c.skip.contains(&c.counter) {
+            return false;
+        }
+        let text = format!("{{\"n\": {}, \"bfs\": {}, \"case\": {}}}", c.counter, bfs, f());
+        let _ = std::fs::write(c.path.as_ref().unwrap(), text);
+        true
+    })
+}
+
+/// Announce the case about to run (product-style space: a prefix of cases can be skipped when a
+/// shard is resumed after a crash). Overwrites the breadcrumb file with the case. Returns false
+/// if the case must be skipped. Without a breadcrumb file this is a no-op returning true.
+#[inline]
+pub fn crumb(f: impl FnOnce() -> String) -> bool {
+    crumb_impl(false, f)
+}
+
+/// Same for a transition of a state-space search: earlier transitions must be re-executed when
+/// resuming, only the crashing ones (listed by number) are skipped.
+#[inline]
+pub fn crumb_bfs(f: impl FnOnce() -> String) -> bool {
+    crumb_impl(true, f)
+}
+
+pub fn crumb_count() -> u64 {
+    CRUMBS.with(|c| c.borrow().counter)
+}
+
 /// Run context handed to every checker.
 pub struct Ctx {
     pub tier: Tier,
